@@ -227,14 +227,18 @@ func (a ThingSlice) Less(i, j int) bool {
 }
 
 // SortValues attempts to sort the slice generically.
+//
+// The given slice is left alone: it is part of somebody's event (or
+// rule), who wants to see it again in the order it had.
 func SortValues(vs []interface{}) ([]interface{}, error) {
 	if len(vs) <= 1 {
 		return vs, nil
 	}
-	ts, err := AsThingSlice(vs)
-	if err != nil {
-		return nil, err
+	if !IsSortable(vs) {
+		return nil, fmt.Errorf("slice %#v is not sortable", vs)
 	}
+	ts := make(ThingSlice, len(vs))
+	copy(ts, vs)
 	sort.Sort(ts)
 	return []interface{}(ts), nil
 }
